@@ -161,7 +161,8 @@ def run(ctx):
             else:
                 point = "chunks_drop"      # that shard is already in use: an ordinary abandoned writer instead
                 final = "drop"
-        req = {"op": "writer", "cache": cache, "opts": opts, "chunks": [ctx.data(c) for c in chunks], "final": final}
+        req = {"op": "writer", "cache": cache, "opts": opts, "chunks": [ctx.data(c) for c in chunks], "final": final,
+               "watch_tmp_on_error": True}
         if keyed:
             req["key"] = key
         snap = snapshot_reqs(cache, keys)
